@@ -819,7 +819,7 @@ def eval_in_kernel(ctx):
         from .common import SymValue
         install_value_stubs(ex)
         arg2 = SymValue(ex, 'arg2')
-        HAS, SETERR = z3.Bool('entity_in_store'), z3.Bool('set_has_non_entity')
+        HAS = z3.Bool('entity_in_store')
         EQ = [z3.Bool(f'same_uid_{i}') for i in range(2)]
         DESC = [z3.Bool(f'descendant_of_{i}') for i in range(2)]
         uids = [Opaque('ast::entity::EntityUID', f'member{i}') for i in range(2)]
@@ -838,8 +838,38 @@ def eval_in_kernel(ctx):
                 if getattr(v, 'id', None) == u.id:
                     return i
             raise NotEncoded(f'unknown uid {v!r}')
+        # member i of the set is an entity uid or not (NONENT[i]); the set as a whole has a non-entity member iff some member is one
+        NONENT = [z3.Bool(f'member_{i}_is_not_an_entity') for i in range(2)]
+        SETERR = z3.Or([NONENT[i] for i in range(LEN)]) if LEN else z3.BoolVal(False)
+        mvals = [Opaque('ast::value::Value', f'member value {i}') for i in range(2)]
         ex.stub(r'get_as_entity_set$', lambda ex_, st, c, A, LEN=LEN: [([z3.Not(SETERR)], ok(Agg('struct', '~vec', None, [ex_.new_cell(st, uids[i], f'm{i}') for i in range(LEN)]))), ([SETERR], err(seterr))],
                 f'Value::get_as_entity_set: {LEN} entity members, or a type error for a non-entity member')
+        # the same set seen member by member (code that walks the set itself instead of calling get_as_entity_set)
+        ex.stub(r'value::Set::iter$', lambda ex_, st, c, A, LEN=LEN: Agg('struct', '~vec_iter', None, [ex_.new_cell(st, mvals[i], f'mv{i}') for i in range(LEN)]), f'Set::iter: the {LEN} member values')
+
+        def get_as_entity(ex_, st, c, A):
+            v = A[0]
+            n = 0
+            while isinstance(v, Ref) and n < 6:
+                v = ex_.read(st, v.fid, v.place)
+                n += 1
+            for i, mv in enumerate(mvals):
+                if getattr(v, 'id', None) == mv.id:
+                    return [([z3.Not(NONENT[i])], ok(ex_.new_cell(st, uids[i], f'm{i}'))), ([NONENT[i]], err(seterr))]
+            return None
+        ex.stub(r'Value>?::get_as_entity$', get_as_entity, 'Value::get_as_entity on member i: its uid, or a type error when it is not an entity')
+        ex.stub(r'^((std|core)::iter::)?once::<', lambda ex_, st, c, A: Agg('struct', '~vec_iter', None, [A[0]]), 'iter::once')
+        ex.stub(r'<([\w:]*::)?Either<.*> as IntoIterator>::into_iter$', lambda ex_, st, c, A: A[0], 'Either::into_iter (itself)')
+
+        def either_next(ex_, st, c, A):
+            r = A[0]
+            if not isinstance(r, Ref):
+                return None
+            v = ex_.read(st, r.fid, r.place)
+            if not (isinstance(v, Agg) and v.variant in ('Left', 'Right')):
+                return None
+            return ex_.dispatch(st, '<std::vec::IntoIter<T> as Iterator>::next', [Ref(r.fid, ('field', ('downcast', r.place, v.variant), 0, '?'))])
+        ex.stub(r'<([\w:]*::)?Either<.*> as Iterator>::next$', either_next, 'Either::next: next of the side it holds')
         ex.stub(r'<Arc<.*EntityUID> as AsRef<.*>>::as_ref$', lambda ex_, st, c, A: A[0], 'Arc<EntityUID>::as_ref')
         ex.stub(r'<&.*EntityUID as PartialEq>::eq$', lambda ex_, st, c, A: BoolV(EQ[idx(ex_, st, A[1])]), 'EntityUID equality with member i: free boolean')
         ex.stub(r'Entity::is_descendant_of$', lambda ex_, st, c, A: BoolV(DESC[idx(ex_, st, A[1])]), 'Entity::is_descendant_of(member i): free boolean (the closure is C04)')
@@ -878,7 +908,14 @@ def eval_in_kernel(ctx):
                         text = 'User::"alice" in User::"alice"' if z3.is_true(m.eval(EQ[0], model_completion=True)) else ('User::"alice" in Group::"g"' if z3.is_true(m.eval(DESC[0], model_completion=True)) else 'User::"alice" in Group::"h"')
                         want = ('bool', 'alice"' in text.split(' in ')[1] or ('Group::"g"' in text and has))
                     elif kk == 4:
-                        text, want = 'User::"alice" in [Group::"h", Group::"g", 1]', ('type_error', 'entity', 1)
+                        tv = lambda t: z3.is_true(m.eval(t, model_completion=True))
+                        # sets iterate in value order (literals before sets and records, entity uids last among literals): a record member is visited AFTER the entity members, a number before them - try both
+                        NE = '{"x": 1}'
+                        elems = [NE if tv(NONENT[i]) else ('User::"alice"' if tv(EQ[i]) else ('Group::"g"' if tv(DESC[i]) else 'Group::"h"')) for i in range(LEN)]
+                        if any(e == NE for e in elems):
+                            text, want = 'User::"alice" in [' + ', '.join(elems) + ']', ('type_error', 'entity', 1)
+                        else:
+                            text, want = 'User::"alice" in [Group::"h", Group::"g", 1]', ('type_error', 'entity', 1)
                     else:
                         text, want = 'User::"alice" in 5', ('type_error', 'advice', 1)
                     got = native_outcome(ctx, text, STORE_WITH if has else None)
